@@ -9,11 +9,13 @@ pub mod vsrc;
 pub mod stubs;
 
 pub mod c07;
+pub mod c08;
 pub mod c20;
 
 pub fn tables() -> Vec<(&'static str, vsrc::NativeFn)> {
     let mut t = Vec::new();
     t.extend(c07::table());
+    t.extend(c08::table());
     t.extend(c20::table());
     t
 }
